@@ -375,8 +375,16 @@ def exec_op(state, inputs, op):
                 if outpath:
                     with open(outpath, encoding="utf-8") as f:
                         text = f.read()
-            # the header (timestamp, command line of this worker process) is not part of the comparison
-            body = text.split('"""\n', 2)[-1] if text.startswith('r"""') else text
+            # the header (timestamp, command line of this worker process) is not part of the comparison: it is the first
+            # statement of the module, whatever its spelling
+            body = text
+            try:
+                import ast
+                first = ast.parse(text).body[0]
+                if isinstance(first, ast.Expr) and isinstance(first.value, ast.Constant) and isinstance(first.value.value, str):
+                    body = "\n".join(text.split("\n")[first.end_lineno:])
+            except (SyntaxError, ValueError, IndexError):
+                pass
             return {"text": body}
         if kind == "implicit":
             from json_to_models.generator import MetadataGenerator
